@@ -297,7 +297,7 @@ def child_collect(args):
     res = {"refused": None}
     try:
         with contextlib.redirect_stdout(buf):
-            create_FORCE_SETS(spec["calc"], files, phpy_yaml=py, disp_filename="phonopy_disp.yaml", log_level=1)
+            create_FORCE_SETS(spec["calc"], files, phpy_yaml=py, disp_filename="phonopy_disp.yaml", log_level=1, force_sets_zero_mode=bool(spec.get("_fz")))
     except SystemExit as e:
         res["refused"] = "SystemExit(%s)" % e.code
     except Exception as e:  # noqa: BLE001
@@ -495,6 +495,14 @@ def execute(spec):
                     fmag = float(np.max(np.abs(p1["fc_model"]))) * 0.01
                     drift = np.array([drng.uniform(-1, 1) for _ in range(3)]) * 0.2 * fmag
                     faults["output_with_net_force(drift)"] = 1
+                # --fz (VASP): the first file is the output of the perfect supercell; its (residual) forces are subtracted from every
+                # other output, and it must sit on the ideal positions
+                fz = calc == "vasp" and not spec.get("random_displacements") and not forces_only and drng.random() < 0.3
+                residual = None
+                if fz:
+                    rr = np.random.default_rng(spec["fault_seed"] % (2**32))
+                    residual = 0.05 * float(np.max(np.abs(p1["fc_model"]))) * 0.01 * rr.standard_normal((p1["natom"], 3))
+                    faults["fz_reference_with_residual_forces"] = 1
                 multiblock = calc in peers.MULTIBLOCK and drng.random() < 0.4
                 if multiblock:
                     faults["output_with_earlier_force_block"] = 1
@@ -581,6 +589,8 @@ def execute(spec):
                         steps["peer_jobs"] += 1
                         if calc in peers.PEER_CALCULATORS:
                             F, perm = peers.harmonic_forces_for_file(rc, ideal_A, p1["fc_model"], L)
+                            if residual is not None:
+                                F = F + residual[perm]
                             out_name = {"turbomole": "job-%03d" % (i + 1)}.get(calc, "output-%03d" % (i + 1))
                             peers.write_force_output(calc, out_name, rc, F, energy=-10.0 - i, drift=drift, earlier_blocks=earlier(F))
                             outputs.append(out_name)
@@ -590,6 +600,16 @@ def execute(spec):
                         # ---------------- delivery with faults
                         frng = core.rng_of(spec["fault_seed"], "delivery")
                         files = list(outputs)
+                        fz_bad_reference = False
+                        if fz:
+                            with contextlib.redirect_stdout(io.StringIO()):
+                                rc0 = peers.read_structure(calc, displaced_file_for(calc, p1["new_files"], 1))[0]
+                            ok0, how0, order0 = same_crystal(sup["lattice"], sup["positions"], sup["symbols"], rc0.cell, rc0.scaled_positions, rc0.symbols, tol=0.2)
+                            rc0.scaled_positions = np.array(sup["positions"])[order0]
+                            peers.write_force_output(calc, "output-000", rc0, residual[order0], energy=-9.0)
+                            if frng.random() < 0.35:
+                                fz_bad_reference = True  # the user hands over a displaced supercell's output as the reference
+                                faults["fz_reference_is_a_displaced_supercell"] = 1
                         # type-2 datasets: phonopy accepts any number of output files by design (the first N displacements are
                         # used), so only the fault that is wrong whatever the count - a truncated output - is injected there
                         fault_list = [k for k in spec["faults"] if k == "truncate"] if spec.get("random_displacements") else spec["faults"]
@@ -662,6 +682,8 @@ def execute(spec):
                             faults["delivery:" + k] = faults.get("delivery:" + k, 0) + 1
                         if not fired:
                             faults["delivery:fault-free"] = 1
+                        if fz:
+                            files = [outputs[-1] if fz_bad_reference else "output-000"] + files
                         if calc == "vasp" and frng.random() < 0.3:
                             # vasprun.xml may be handed over compressed (phonopy chooses the reader by the file name's suffix)
                             import bz2
@@ -678,7 +700,7 @@ def execute(spec):
                             files = [done[f_] for f_ in files]
                             faults["delivery:compressed" + ext_] = 1
                         os.chdir(cwd)
-                        p2 = sub(child_collect, (spec, path, files))
+                        p2 = sub(child_collect, (dict(spec, _fz=fz), path, files))
                         os.chdir(path)
                         written, refused = p2["written"], p2["refused"]
                         log.append(("collect", calc, fired, written, bool(refused)))
@@ -711,7 +733,9 @@ def execute(spec):
                             correct = n_sets == p1["ndisp"] and max(errs) < ftol
                             probes["force_sets_max_error"] = max(errs)
                         trunc = [k for k in fired if k.startswith("truncate")]
-                        must_refuse = bool(trunc) or len(files) != p1["ndisp"]
+                        must_refuse = bool(trunc) or (len(files) - (1 if fz else 0)) != p1["ndisp"] or fz_bad_reference
+                        if fz_bad_reference:
+                            fired = fired + ["fz-reference-displaced"]
                         detectable = calc in peers.CARRIES_POSITIONS
                         regrouped = any_reordered
                         site_f = "+".join(sorted(set(fired))) if fired else "fault-free"
